@@ -50,7 +50,7 @@ fn direct_bits_twin(kmax: u32, x86: bool) {
 #[kani::unwind(18)]
 fn c14b_direct_bits_twin_x86_k3() { direct_bits_twin(3, true); }
 
-//@ {"name":"c14b_direct_bits_twin_aarch64_k3","props":["C14","C15"],"obligation":"C14-B","timeout":1500,"mem_gb":9,"functions":["range_dec::RangeDecoder::decode_direct_bits (portable)","range_dec::RangeDecoder::decode_direct_bits_aarch64 (asm!, lowered by lower.py)"],"bounds":"as the x86 twin; count 1..=3; unwind 18","assumes":["range >= 2^16 on entry; code unconstrained","aarch64 model cannot be validated against real aarch64 asm on this x86-64 host (same translator, validated on the x86 block)"]}
+//@ {"name":"c14b_direct_bits_twin_aarch64_k3","props":["C14"],"obligation":"C14-B","timeout":1500,"mem_gb":9,"functions":["range_dec::RangeDecoder::decode_direct_bits (portable)","range_dec::RangeDecoder::decode_direct_bits_aarch64 (asm!, lowered by lower.py)"],"bounds":"as the x86 twin; count 1..=3; unwind 18","assumes":["range >= 2^16 on entry; code unconstrained","aarch64 model cannot be validated against real aarch64 asm on this x86-64 host (same translator, validated on the x86 block)"]}
 #[kani::proof]
 #[kani::unwind(18)]
 fn c14b_direct_bits_twin_aarch64_k3() { direct_bits_twin(3, false); }
